@@ -1,10 +1,24 @@
 ----------------------------- MODULE VerdictLib -----------------------------
-(* Shared by all trace monitors: verdict lists keep at most PerSig records  *)
-(* of each (clause, sig) kind, so a flood of one kind never hides another.  *)
-EXTENDS Integers, Sequences, FiniteSets
+(***************************************************************************)
+(* Shared by all trace monitors.  Verdict records are accumulated in a TLC *)
+(* register (TLCSet/TLCGet), not in a state variable: a long list of       *)
+(* verdicts inside every state made fingerprinting the dominant cost.      *)
+(* Trace validation runs with -workers 1 and the trace specification is a  *)
+(* linear chain of states, so every action is evaluated exactly once.      *)
+(* At most PerSig records of each (clause, sig) kind are kept, so a flood  *)
+(* of one kind never hides another kind; the total is counted separately.  *)
+(***************************************************************************)
+EXTENDS Integers, Sequences, FiniteSets, TLC
 PerSig == 3
-SameKind(a, b) == a.clause = b.clause /\ a.sig = b.sig
+Reg == 7
+CntReg == 8
+SameKind(a, b) == a.clause = b.clause /\ a.sig = b.sig /\ a.prop = b.prop
 AddVTo(cur, vs) ==
     LET fresh(v) == Cardinality({i \in 1..Len(cur) : SameKind(cur[i], v)}) < PerSig
-    IN IF Len(cur) > 400 THEN cur ELSE cur \o SelectSeq(vs, fresh)
+    IN IF Len(cur) > 600 THEN cur ELSE cur \o SelectSeq(vs, fresh)
+InitV == TLCSet(Reg, <<>>) /\ TLCSet(CntReg, 0)
+Record(vs) == IF vs = <<>> THEN TRUE
+              ELSE TLCSet(Reg, AddVTo(TLCGet(Reg), vs)) /\ TLCSet(CntReg, TLCGet(CntReg) + Len(vs))
+All == TLCGet(Reg)
+Total == TLCGet(CntReg)
 =============================================================================
